@@ -150,27 +150,36 @@ class _Captured(Exception):
     """Raised by the round() stand-in: the symbolic fill count has been computed; the rendering is checked separately."""
 
 
-def _capture_fill(hw, lcd, *args, **kw):
-    """Run the real LCD.progress up to the point where the fill count is computed (`int(round(ratio * width))`) and
-    return that value as the engine's symbolic term - without the fork per concrete count that the string rendering
-    (`glyph * filled`) would cause."""
-    L = hw.load("Reduino.Displays.LCD")
-    box = []
+class _CaptureStr(str):
+    """The bar glyph: repeating it by the (symbolic) fill count hands that count over instead of forking on it."""
 
-    def capturing_round(x, *a):
-        box.append(pysym.p_round(x, *a))
-        raise _Captured()
-    L.round = capturing_round
+    def __mul__(self, n):
+        if pysym.is_sym(n):
+            raise _Captured(n)
+        return str.__mul__(self, n)
+
+    __rmul__ = __mul__
+
+
+def _capture_fill(hw, lcd, *args, **kw):
+    """Run the real LCD.progress up to the point where the bar is rendered (`glyph * filled`) and return the fill count as
+    the engine's symbolic term - without the fork per concrete count that the string repetition would cause.  The
+    glyph table of the class is replaced by instrumented strings for the duration of the call; however the count was
+    computed (round(), int(), min() ...) it is the value the glyph is multiplied by."""
+    L = hw.load("Reduino.Displays.LCD")
+    cls = type(lcd)
+    table = cls._PROGRESS_STYLES
+    cls._PROGRESS_STYLES = {k: _CaptureStr(v) for k, v in table.items()}
+    got = []
     try:
         lcd.progress(*args, **kw)
-    except _Captured:
-        pass
+    except _Captured as c:
+        got.append(c.args[0])
     finally:
-        del L.round
-    if box:
-        return box[0]
-    # the code under test no longer rounds with round(): take the count from the rendered row instead (one path per
-    # concrete count - slower, same claims)
+        cls._PROGRESS_STYLES = table
+    if got:
+        return got[0]
+    # the count was concrete on this path, or the bar is not built by repeating the glyph: read it off the row
     row = args[0]
     return lcd.buffer[row].count("#")
 
